@@ -69,6 +69,17 @@ var vHostileNames = []string{"../evil", "..", "../../evil2", "a/../../evil3", "s
 var vHostileLists = [][]string{{"..", "evil"}, {"sub", "..", "..", "evil2"}, {"a/../../evil3"}, {"/abs", "evil4"}, {"", "evil5"}, {"x", ""}, {"x", "..", "..", "evil6"},
 	{".", "evil7"}, {"..", "sibling", "canary.txt"}, {"top", "../../evil8"}, {"..", "..", "evil9"}, {"..", "canary.txt"}, {"..\\evil10"}, {"top", "/abs/evil11"}, {"top", "..", "..", "sibling", "new"}}
 
+// vHostileList composes a path list from suspicious elements (in addition to the fixed lists).
+func vHostileList(tp *verifsim.Tape) []string {
+	elems := []string{"..", ".", "", "./..", ".//..", "../", "..//", "a/..", "/", "/abs", "..\\", "sub", "x/../..", "./.", "../.", "...", " ..", ".. ", "..\x00"}
+	n := 1 + tp.Draw("hl.n", 4)
+	var out []string
+	for i := 0; i < n; i++ {
+		out = append(out, elems[tp.Draw("hl.elem", len(elems))])
+	}
+	return append(out, []string{"victim.txt", "canary.txt", "evil", "sibling"}[tp.Draw("hl.last", 4)])
+}
+
 func vScenarioC09(rc *runCtx) {
 	if rc.param("mode", "system") == "archive" {
 		vC09Archive(rc)
@@ -113,6 +124,9 @@ func vScenarioC09(rc *runCtx) {
 		var m map[string]any
 		if json.Unmarshal(raw, &m) == nil && m != nil && m["path_name"] != nil {
 			lst := vHostileLists[tp.Draw("c09.list", len(vHostileLists))]
+			if tp.Bool("c09.compose", 500) {
+				lst = vHostileList(tp)
+			}
 			if tp.Bool("c09.keepdepth", 300) {
 				// keep the original first element and go astray below it
 				if orig, ok := m["path_name"].([]any); ok && len(orig) > 0 {
@@ -128,6 +142,9 @@ func vScenarioC09(rc *runCtx) {
 			return vEncode(js), true
 		}
 		name := vHostileNames[tp.Draw("c09.name", len(vHostileNames))]
+		if tp.Bool("c09.composename", 400) {
+			name = strings.Join(vHostileList(tp), "/")
+		}
 		injected = name
 		rc.fault("hostile-name-plain")
 		return vEncode([]byte(name)), true
@@ -219,6 +236,9 @@ func vC09Archive(rc *runCtx) {
 		return
 	}
 	lst := vHostileLists[tp.Draw("c09a.list", len(vHostileLists))]
+	if tp.Bool("c09a.compose", 500) {
+		lst = vHostileList(tp)
+	}
 	if tp.Bool("c09a.undertop", 600) {
 		lst = append([]string{"tree"}, lst...)
 	}
